@@ -219,7 +219,7 @@ pub fn panic_site(loc: &str) -> String {
     let mut it = loc.rsplitn(2, ':');
     let line: usize = it.next().and_then(|l| l.parse().ok()).unwrap_or(0);
     let file = it.next().unwrap_or("");
-    let path = if file.starts_with('/') { PathBuf::from(file) } else { Path::new("/repo").join(file) };
+    let path = if file.starts_with('/') { PathBuf::from(file) } else { Path::new(&std::env::var("VERIF_REPO").unwrap_or_else(|_| "/repo".to_string())).join(file) };
     if let Ok(text) = std::fs::read_to_string(&path) {
         let lines: Vec<&str> = text.lines().collect();
         let mut i = line.min(lines.len());
